@@ -160,6 +160,8 @@ def main():
             fops.append(f"FCreate {target}")
             cur["open"] = target
         elif m.group(4):
+            if "open" not in cur:
+                raise TranslateError(f"{PREF}: save_user_dictionary writes to a file that this function did not create (the file operations moved into a helper?)")
             fops.append(f"FWrite {cur['open']}")
         elif m.group(5):
             a, b = m.group(5), m.group(6)
